@@ -9,7 +9,7 @@ Model (JSON-serialisable; the top-level package name is NOT part of the model, t
     item = {"t": "attr",  "name": str, "value": <literal source>}
          | {"t": "func",  "name": str, "params": [param, ...], "ret": <annotation source> | None, "doc": str | None,
             "async": bool, "deco": None | "staticmethod" | "classmethod" | "property" | "cached_property" | "fcached_property",
-            "setter": bool, "init_attrs": [str, ...]}
+            "setter": bool, "init_attrs": [str, ...], "init_chains": [[member, attr, ...], ...]}   # self.<member>.<attr> = 0 in __init__
          | {"t": "class", "name": str, "doc": str | None, "bases": [[part, ...], ...], "body": [item, ...]}
            # a base is a dotted name; a last part starting with "[" is a subscript: ["Repo", "[int]"], ["Generic", "[T]"]
            # relative forms climb to the nearest common package plus "up" (0-2) further ones: from ...sub.c import X
@@ -430,6 +430,17 @@ class _Builder:
                     body.append(self.func(n, None, "self"))
         # `self.v = 0` in __init__ must not shadow a method `v` of the class (the visitor would turn the method into an
         # instance attribute: that is the tolerated "instance attributes assigned in __init__", not a skeleton difference)
+        # chained targets through an existing class-level member in __init__ (`self.Inner.debug = 0`, `self.m.__func__.calls = 0`):
+        # they bind nothing (neither agent records a member for `self.a.b = ...`; the body is never executed at import)
+        for k, it in enumerate(body):
+            if it["t"] == "func" and it["name"] == "__init__" and self.chance(45):
+                before = [x for x in body[:k] if x["t"] in ("class", "func") and x["name"] != "__init__"]
+                chains = []
+                for x in (d(st.lists(st.sampled_from(before), min_size=1, max_size=2)) if before else []):
+                    chain = [x["name"], "debug"] if x["t"] == "class" or x.get("deco") in ("property", "cached_property", "fcached_property") else [x["name"], "__func__", "calls"]
+                    if chain not in chains:
+                        chains.append(chain)
+                it["init_chains"] = chains
         if self.chance(15):
             names = self.explicit_names(body)
             if names:
@@ -734,6 +745,8 @@ def _render_items(items: list[dict], ind: str, top: str, mods: list[dict], me: d
                 body.append(repr(it["doc"]))
             for a in it["init_attrs"]:
                 body.append(f"self.{a} = 0")
+            for chain in it.get("init_chains", ()):
+                body.append("self." + ".".join(chain) + " = 0")
             if not body:
                 body.append("pass")
             out.extend(f"{ind}    {b}" for b in body)
@@ -918,6 +931,8 @@ def describe(case: dict):
                     cls.add("async")
                 if it["setter"]:
                     cls.add("property-setter")
+                if it.get("init_chains"):
+                    cls.add("init-chained-target-through-member")
                 if it["init_attrs"]:
                     cls.add("init-assigned-attrs")
                 if is_mangled(it["name"]) and in_class:
